@@ -17,6 +17,7 @@ import (
 	"google.golang.org/protobuf/proto"
 
 	"verif/explore"
+	"verif/sim"
 	"verif/vrt"
 )
 
@@ -106,18 +107,24 @@ var errBoom = errors.New("sim: injected scan failure")
 
 func (s *scanSim) SendRPC(call hrpc.Call) (proto.Message, error) {
 	vrt.Yield("sim.SendRPC")
-	s.requests++
 	sc, ok := call.(*hrpc.Scan)
 	if !ok {
 		return nil, errors.New("sim: not a scan")
 	}
 	if err := call.Context().Err(); err != nil {
+		s.requests++
 		return nil, err
 	}
 	ri := s.regionIdx(call.Key())
+	call.SetRegion(s.regs[ri])
+	return s.serve(sc.ToProto().(*pb.ScanRequest), ri)
+}
+
+// serve answers one scan request addressed to region ri (shared by the RPCClient-level
+// adversary and by the wire-level server of tier W).
+func (s *scanSim) serve(req *pb.ScanRequest, ri int) (*pb.ScanResponse, error) {
+	s.requests++
 	reg := s.regs[ri]
-	call.SetRegion(reg)
-	req := sc.ToProto().(*pb.ScanRequest)
 	isClose := req.GetCloseScanner() && req.ScannerId != nil && req.GetNumberOfRows() == 0
 	if s.cfg.endKind == "error" && !isClose && !req.GetRenew() && s.requests == s.cfg.endAt {
 		return nil, errBoom
@@ -482,7 +489,7 @@ func scanKeySets(thorough bool) []keySet {
 }
 
 func c06Units(thorough bool) []*explore.Unit {
-	var units []*explore.Unit
+	units := scanWireUnits(thorough, false)
 	for ki, ks := range scanKeySets(thorough) {
 		for mask := 1; mask < 1<<len(ks.keys); mask++ {
 			if !thorough && ki > 0 && bitsSet(mask) < 2 {
@@ -531,7 +538,7 @@ func c06Units(thorough bool) []*explore.Unit {
 }
 
 func c14Units(thorough bool) []*explore.Unit {
-	var units []*explore.Unit
+	units := scanWireUnits(thorough, true)
 	rowsets := [][]string{{"a", "b", "c"}}
 	if thorough {
 		rowsets = append(rowsets, []string{"a", "c"}, []string{"a", "b", "c", "d"})
@@ -610,4 +617,143 @@ func bitsSet(m int) int {
 		n++
 	}
 	return n
+}
+
+// ---- tier W: the same adversary behind the wire (real client, real region clients,
+// cells travelling in cellblocks with cells_per_result / partial flags)
+
+func scanWireUnit(c scanCfg) *explore.Unit {
+	out := &scanObs{}
+	u := &explore.Unit{Name: "wire|" + c.String(), Bound: 0, Opt: vrt.Options{MaxSteps: 120000}}
+	u.Body = func() {
+		*out = scanObs{}
+		ss := newScanSim(c)
+		out.sim = ss
+		cl := sim.NewCluster("rs0:1")
+		cl.AddTable("t", c.bounds, []string{"rs1:1", "rs2:1"})
+		idxOf := func(reg *sim.Region) int {
+			for i := range ss.starts {
+				if string(ss.starts[i]) == string(reg.Start) {
+					return i
+				}
+			}
+			return -1
+		}
+		cl.ScanHandler = func(reg *sim.Region, req *pb.ScanRequest) (*pb.ScanResponse, []sim.KV, string) {
+			resp, err := ss.serve(req, idxOf(reg))
+			if err != nil {
+				return nil, nil, "org.apache.hadoop.hbase.DoNotRetryIOException"
+			}
+			var cells []sim.KV
+			for _, r := range resp.Results {
+				resp.CellsPerResult = append(resp.CellsPerResult, uint32(len(r.Cell)))
+				resp.PartialFlagPerResult = append(resp.PartialFlagPerResult, r.GetPartial())
+				for _, cc := range r.Cell {
+					cells = append(cells, sim.KV{Row: cc.Row, Family: cc.Family, Qualifier: cc.Qualifier, Value: cc.Value, TS: 7, Type: 4})
+				}
+			}
+			resp.Results = nil
+			return resp, cells, ""
+		}
+		w := newWorldW(cl, gohbase.FlushInterval(0), gohbase.RpcQueueSize(1))
+		ctx, cancel := context.WithCancel(context.Background())
+		opts := []func(hrpc.Call) error{hrpc.NumberOfRows(c.nrows)}
+		if c.rev {
+			opts = append(opts, hrpc.Reversed())
+		}
+		if c.partial {
+			opts = append(opts, hrpc.AllowPartialResults())
+		}
+		sc, err := hrpc.NewScanRangeStr(ctx, "t", c.start, c.stop, opts...)
+		if err != nil {
+			panic(err)
+		}
+		s := w.client.Scan(sc)
+		for i := 0; i < 200; i++ {
+			if c.endKind == "close" && i == c.endAt {
+				s.Close()
+			}
+			if c.endKind == "cancel" && i == c.endAt {
+				cancel()
+			}
+			r, err := s.Next()
+			out.nextN++
+			if err == io.EOF {
+				break
+			}
+			if err != nil {
+				out.endErr = err
+				out.endSeen++
+				if r != nil {
+					out.got = append(out.got, fmtResult(r))
+				}
+				continue
+			}
+			out.got = append(out.got, fmtResult(r))
+		}
+		for i := 0; i < 2; i++ {
+			_, e := s.Next()
+			out.afterEOF = append(out.afterEOF, e)
+		}
+		s.Close()
+		vrt.Sleep(time.Hour)
+		out.open = len(ss.open)
+		w.client.Close()
+		vrt.Sleep(10 * time.Minute)
+		cancel()
+	}
+	chk := scanCheck(c, out, true)
+	u.Check = func(res *vrt.Result) *explore.Finding {
+		f := chk(res)
+		if f != nil && f.Class == "shared-region-descriptor-mutated" {
+			return nil // the wire units use the cluster's regions, not the adversary's descriptors
+		}
+		return f
+	}
+	u.Sig = func() string {
+		if out.sim == nil {
+			return "?"
+		}
+		return fmt.Sprintf("wire req=%d opened=%d rows=%d", out.sim.requests, out.sim.opened, len(out.got))
+	}
+	return u
+}
+
+func scanWireUnits(thorough bool, endings bool) []*explore.Unit {
+	var units []*explore.Unit
+	rows := []string{"a", "b", "c"}
+	for _, ncells := range []int{1, 2} {
+		for _, bounds := range [][]string{nil, {"b"}, {"b", "c"}} {
+			for _, rng := range [][2]string{{"", ""}, {"a", "c"}, {"c", "a"}, {"b", ""}, {"c", ""}} {
+				for _, rev := range []bool{false, true} {
+					if rev && rng[0] == "" {
+						continue
+					}
+					if !rev && rng[1] != "" && rng[0] > rng[1] {
+						continue
+					}
+					for _, nrows := range []uint32{1, 100} {
+						for _, partial := range []bool{false, true} {
+							base := scanCfg{rows: rows, ncells: ncells, bounds: bounds, start: rng[0], stop: rng[1], rev: rev, nrows: nrows, partial: partial}
+							if !endings {
+								units = append(units, scanWireUnit(base))
+								continue
+							}
+							if ncells == 1 && !thorough {
+								continue
+							}
+							for _, kind := range []string{"close", "cancel", "nomore"} {
+								for at := 1; at <= 3; at++ {
+									e := base
+									e.endKind, e.endAt = kind, at
+									units = append(units, scanWireUnit(e))
+								}
+							}
+						}
+					}
+				}
+			}
+		}
+	}
+	return units
 }
